@@ -52,6 +52,9 @@ pub struct Profile {
   pub script_pool: u8,
   pub p_parents: f64,
   pub big_children: bool,
+  /// favour runic inputs, unnamed etchings, premines and open mints
+  pub rune_heavy: bool,
+  pub inscription_heavy: bool,
 }
 
 impl Profile {
@@ -78,6 +81,8 @@ impl Profile {
       script_pool: 5,
       p_parents: 0.0,
       big_children: false,
+      rune_heavy: false,
+      inscription_heavy: false,
     }
   }
 
@@ -88,6 +93,7 @@ impl Profile {
       max_envelopes: 4,
       p_dup_coinbase: 0.0,
       p_parents: 0.3,
+      inscription_heavy: true,
       ..Self::sats()
     }
   }
@@ -103,6 +109,7 @@ impl Profile {
       p_coinbase_runestone: 0.05,
       max_edicts: 6,
       blocks: 3..14,
+      rune_heavy: true,
       ..Self::sats()
     }
   }
@@ -168,12 +175,14 @@ pub fn out_spec(p: &Profile) -> BoxedStrategy<OutSpec> {
     .boxed()
 }
 
-pub fn input_sel() -> BoxedStrategy<InputSel> {
+pub fn input_sel(p: &Profile) -> BoxedStrategy<InputSel> {
+  let runic = if p.rune_heavy { 8 } else { 2 };
+  let inscribed = if p.inscription_heavy { 5 } else { 2 };
   prop_oneof![
     4 => any::<u16>().prop_map(InputSel::Any),
     3 => any::<u16>().prop_map(InputSel::Newest),
-    2 => any::<u16>().prop_map(InputSel::Inscribed),
-    2 => any::<u16>().prop_map(InputSel::Runic),
+    inscribed => any::<u16>().prop_map(InputSel::Inscribed),
+    runic => any::<u16>().prop_map(InputSel::Runic),
     1 => any::<u16>().prop_map(InputSel::ZeroValue),
     2 => any::<u16>().prop_map(InputSel::SameBlock),
     1 => (any::<u16>(), 5u8..8).prop_map(|(c, a)| InputSel::AgedTaproot(c, a)),
@@ -286,7 +295,7 @@ pub fn witness_spec(p: &Profile, with_commit: bool) -> BoxedStrategy<WitnessSpec
     1 => proptest::collection::vec(proptest::collection::vec(any::<u8>(), 0..40), 0..4).prop_map(WitnessSpec::Raw),
     1 => Just(WitnessSpec::Raw(vec![vec![0u8; 32]])),
   ];
-  let commit_weight = if with_commit { 600 } else { 0 };
+  let commit_weight = if with_commit { 2500 } else { 0 };
   let pe = (p.p_envelopes * 1000.0) as u32;
   let pr = (p.p_raw_witness * 1000.0) as u32;
   let none = 1000u32.saturating_sub(pe + pr).max(1);
@@ -367,21 +376,22 @@ pub fn terms_spec() -> BoxedStrategy<TermsSpec> {
     .boxed()
 }
 
-pub fn etching_spec() -> BoxedStrategy<EtchingSpec> {
+pub fn etching_spec(p: &Profile) -> BoxedStrategy<EtchingSpec> {
+  let heavy = p.rune_heavy;
   let name = prop_oneof![
     8 => (0u32..50).prop_map(NameSpec::Valid),
     2 => (-2i8..3).prop_map(NameSpec::AroundMinimum),
     1 => (0u16..100).prop_map(NameSpec::Reserved),
     2 => any::<u16>().prop_map(NameSpec::Duplicate),
-    3 => Just(NameSpec::Unnamed),
+    if heavy { 10 } else { 3 } => Just(NameSpec::Unnamed),
   ];
   (
     name,
-    optw(0.6, prop_oneof![3 => (0u32..100_000).prop_map(AmountSpec::Small), 1 => Just(AmountSpec::Zero), 1 => Just(AmountSpec::Max)]),
+    optw(if heavy { 0.8 } else { 0.6 }, prop_oneof![5 => (1u32..100_000).prop_map(AmountSpec::Small), 1 => Just(AmountSpec::Zero), 1 => Just(AmountSpec::Max)]),
     optw(0.4, 0u8..39),
     optw(0.3, any::<u32>()),
     optw(0.3, any::<char>()),
-    optw(0.6, terms_spec()),
+    optw(if heavy { 0.75 } else { 0.6 }, terms_spec()),
     any::<bool>(),
   )
     .prop_map(|(name, premine, divisibility, spacers, symbol, terms, turbo)| EtchingSpec {
@@ -406,8 +416,8 @@ pub fn runestone_spec(p: &Profile) -> BoxedStrategy<RunestoneSpec> {
     Just(FlawSpec::Varint),
   ];
   let structured = (
-    optw(p.p_etching, etching_spec()),
-    optw(0.4, rune_ref()),
+    optw(p.p_etching, etching_spec(p)),
+    optw(if p.rune_heavy { 0.55 } else { 0.4 }, rune_ref()),
     optw(0.3, any::<u8>()),
     proptest::collection::vec(edict_spec(), 0..=p.max_edicts),
     optw(p.p_flaw, flaw),
@@ -431,7 +441,7 @@ pub fn tx_spec(p: &Profile) -> BoxedStrategy<TxSpec> {
   let p2 = p.clone();
   let runestone = optw(p.p_runestone, runestone_spec(p));
   (
-    proptest::collection::vec(input_sel(), 1..=p.max_inputs),
+    proptest::collection::vec(input_sel(p), 1..=p.max_inputs),
     proptest::collection::vec(out_spec(p), 0..=p.max_outputs),
     fee_spec(),
     runestone,
